@@ -289,3 +289,19 @@ Example dp_257_structs_fail : dp_call 257 = CErr 1 sys_msg false.
 Proof. vm_compute. reflexivity. Qed.
 Example dp_257_typed : args_typed env0 (fs_args dp_sig) [dp_chain 256 1; VInt 7].
 Proof. unfold args_typed. repeat (apply Forall2_cons; [cbn [fst]; apply (has_type_b_sound env0 600); vm_compute; reflexivity|]). apply Forall2_nil. Qed.
+
+(* ---------- the error clause at code 0: an implementation that fails with a tars.Error whose code is 0 (the protocol's
+   success marker) - the reply carries IRet = 0, so the caller of a void function sees SUCCESS, the caller of a function
+   with results a decode error with code 1; code and message are lost (same on the code: known findings
+   e2e/error-code-zero/...). For every other code the error theorems give code and message exactly. ---------- *)
+Definition z_void : fsig := {| fs_name := [112; 105; 110; 103]; fs_ret := None; fs_args := [] |}.
+Definition z_int : fsig := {| fs_name := [102; 73; 110; 116]; fs_ret := Some TI32; fs_args := [(TI32, false); (TI32, true)] |}.
+Definition z_impl : bytes -> list val -> smap -> smap -> impl_res := fun _ _ _ _ => IFail 0 [98; 111; 111; 109].
+Example z_code_zero_void_succeeds :
+  fst (call env0 SR SP MAXP z_impl (filters_of inv_res no_filters) (filters_of disp_res no_filters) [z_void] z_void [] [] false 41 [79] 3000)
+  = COk None [] [].
+Proof. vm_compute. reflexivity. Qed.
+Example z_code_zero_results_decode_error :
+  fst (call env0 SR SP MAXP z_impl (filters_of inv_res no_filters) (filters_of disp_res no_filters) [z_int] z_int [VInt 5; VInt 0] [] false 41 [79] 3000)
+  = CErr 1 sys_msg true.
+Proof. vm_compute. reflexivity. Qed.
